@@ -300,6 +300,32 @@ Qed.
 Lemma gget_lookup : forall st st' x, lookup x (globals st') = lookup x (globals st) -> gget st' x = gget st x.
 Proof. unfold gget. intros. now rewrite H. Qed.
 
+(* from ANY machine state: once a list of instructions in which only GLOBALFUNC f writes the global f has
+   run through and contained such an instruction (or f held a function object to begin with), f holds a
+   function object *)
+Lemma exec_list_func_defined : forall is st st' f, exec_list st is = Some st' ->
+  Forall (fun i => writes i = Some f -> exists b, i = GlobalFunc f b) is ->
+  (exists b, In (GlobalFunc f b) is) \/ (exists a, gget st f = VFunc a) ->
+  exists a, gget st' f = VFunc a.
+Proof.
+  induction is as [|i is IH]; simpl; intros st st' f E W H.
+  - inv E. destruct H as [[b []]|H]; exact H.
+  - inv W. destruct (exec_instr st i) as [st1|] eqn:E1; try discriminate.
+    apply (IH st1 st' f E H3).
+    assert (D : {writes i = Some f} + {writes i <> Some f}).
+    { destruct (writes i) as [n|]; [|right; discriminate].
+      destruct (Z.eq_dec n f) as [->|NE]; [left; reflexivity|right; congruence]. }
+    destruct D as [Wf|Wf].
+    + right. destruct (H2 Wf) as [b ->].
+      apply exec_GlobalFunc in E1. destruct E1 as [[_ ->]|(a & G & _ & ->)].
+      * rewrite gget_gset_same. eauto.
+      * rewrite gget_set_funcs. eauto.
+    + destruct H as [[b [->|HI]]|[a G]].
+      * exfalso. apply Wf. reflexivity.
+      * left. eauto.
+      * right. exists a. rewrite (gget_lookup _ _ _ (exec_writes _ _ _ _ E1 Wf)). exact G.
+Qed.
+
 Section State.
   Variable S : sig.
   Hypothesis WF : wf_sig S.
@@ -358,23 +384,25 @@ Section State.
     rewrite (gget_lookup _ _ _ (exec_list_writes _ _ _ _ E2 W2)). apply gget_gset_same.
   Qed.
 
-  (* var n = f: holds THE function object of f again *)
+  (* var n = f: holds THE function object of f again -- from ANY machine state st (no invariant needed:
+     GLOBALFUNC f either fails or leaves a function object in f, and nothing after it writes f) *)
   Theorem state_funcref : forall st st' n f, In (VSet n (EArg (APath (PGlobal f)))) (svars S) -> In f (sfuncs S) ->
-    Inv S st -> exec_list st (version_of S B) = Some st' ->
+    exec_list st (version_of S B) = Some st' ->
     gget st' n = gget st' f /\ exists a, gget st' f = VFunc a.
   Proof.
-    intros st st' n f HI HF I E.
+    intros st st' n f HI HF E.
     destruct (version_split _ HI) as (v1 & v2 & SV & EQ & W1 & W2). simpl in *.
     destruct (version_ok S B) as [VO _]. rewrite EQ in VO. apply Forall_app in VO. destruct VO as [OKa _].
     rewrite EQ in E. apply exec_list_app in E. destruct E as (sa & E1 & E2). simpl in E2.
-    pose proof (exec_list_inv S WF _ _ _ OKa I E1) as Ia.
-    assert (exists a, fn_addr sa (KFunc f) = Some a) as [a Fa].
-    { apply (exec_list_defined S WF _ _ _ OKa I E1 (KFunc f) HF). unfold has_key, decls_before. repeat rewrite existsb_app.
-      assert (existsb (fun i => key_is i (KFunc f)) (map (fun n0 => GlobalFunc n0 (fbody B n0)) (sfuncs S)) = true) as ->.
-      { apply existsb_exists. exists (GlobalFunc f (fbody B f)). split. apply in_map_iff. exists f. auto.
-        apply key_is_true. reflexivity. }
-      now rewrite !orb_true_r. }
-    simpl in Fa. destruct (gget sa f) eqn:Gf; inv Fa.
+    assert (exists a, gget sa f = VFunc a) as [a Gf].
+    { apply (exec_list_func_defined _ _ _ _ E1).
+      - eapply Forall_impl; [|exact OKa]. intros i OKi Wi. destruct i; simpl in Wi, OKi; inv Wi.
+        + exfalso. eapply (t_not_f S WF f); eauto.
+        + eauto.
+        + exfalso. eapply (f_not_v S WF f); eauto.
+        + exfalso. eapply (f_not_v S WF f); eauto.
+      - left. exists (fbody B f). apply in_or_app. left. unfold decls_before.
+        apply in_or_app. right. apply in_or_app. right. apply in_map_iff. exists f. auto. }
     assert (WF2 : Forall (fun i => writes i <> Some f) (map vinstr v2)).
     { apply Forall_forall. intros i II. apply in_map_iff in II. destruct II as (x & <- & II).
       intro EE. eapply (f_not_v S WF f); auto. unfold vnames. rewrite SV.
